@@ -27,7 +27,7 @@ def setup(ctx):
 def gen_cases(tier, seed, shard, nshards):
     thorough = tier == "thorough"
     g = 0
-    nprog = 6000 if thorough else 700
+    nprog = 30000 if thorough else 700
     for k in range(nprog):
         if k % nshards != shard:
             continue
